@@ -114,3 +114,21 @@ claim("C18", "exploration",
       "Generated models with 1-D and non-square 2-D arrays in every variable category, component arrays holding arrays, derivatives of arrays, array-valued/scalar attributes, array outputs and delayed array expressions are compiled without expand_vectors, with it and with it plus expand_mx; scalar names and order, per-element attributes, outputs, delay states and the residuals / delay arguments at renamed random points must agree.",
       "the unexpanded model is the reference; generated delay symbols may be indexed [i] or [i,1]",
       "DESIGN.md section 4, C18")
+
+claim("C14", "exploration",
+      "solution-preservation monitor on Model.simplify over models with a constructed unique solution and a pairwise covering design of option subsets",
+      "Generated square nonsingular models (affine diagonally dominant or triangular nonlinear, decorated with alias chains, signed aliases, constant assignments, eliminable variables, factored equations, if-equations, parameter expressions) are simplified under option subsets in which every pair of the 12 options occurs; the known solution must still satisfy the simplified residual (S1), the simplified system must keep a full-rank Jacobian in its remaining unknowns (S2), and every recorded alias / constant value must hold at the solution (S3). Exceptions and warnings count as reported failure.",
+      "parameters and constants fixed at declared values; local uniqueness at w* stands for 'no solution gained'",
+      "DESIGN.md section 4, C14")
+
+claim("C15", "exploration",
+      "structural monitor on Model.simplify: balance (unknowns - equations) before/after and constructibility of the four model functions",
+      "Same generated square nonsingular models and covering design as C14; after simplify the difference between the number of unknown elements and residual elements must be unchanged and the residual, initial-residual, metadata and delay-argument functions must be constructible (CasADi rejects free variables, so a reference to an eliminated variable is observable).",
+      "an exception or warning from simplify itself is a reported failure under C14's contract",
+      "DESIGN.md section 4, C15")
+
+claim("C16", "exploration",
+      "interval-arithmetic reference over the alias classes reported by the real alias relation, compared with the canonical Variable and the metadata function",
+      "Generated models with 2-6 alias equations (chains, positive/negative links, canonicals among states, inputs, derivatives and algebraics) whose members carry random min/max/nominal/fixed/start are simplified with detect_aliases; for every class the canonical variable's bounds must be the sign-adjusted intersection, its nominal the maximum, fixed the disjunction, and its start its own or an alias's sign-adjusted explicit start.",
+      "the choice of canonical variable is the implementation's; any member's explicit start is accepted when the canonical has none",
+      "DESIGN.md section 4, C16")
